@@ -1259,16 +1259,44 @@ func (r *c08Run) stuckResponse(minSilence time.Duration) string {
 		if !active {
 			continue
 		}
-		settled := false
+		// Positive evidence that the downstream answer reached Bob: a
+		// fulfill is passed upstream on receipt; a fail only once its
+		// removal is locked in (fail, then a commit_sig and a
+		// revoke_and_ack from the peer on the same connection).
+		settled, failStage, failEpoch := false, 0, -1
 		for _, e := range events {
-			if e.edge == edgeOut && e.kind == c08Fulfill &&
-				e.id == f.out.HtlcID && !e.dropped {
-
+			if e.edge != edgeOut || e.dropped {
+				continue
+			}
+			switch {
+			case e.kind == c08Fulfill && e.id == f.out.HtlcID:
 				settled = true
+			case e.kind == c08Fail && e.id == f.out.HtlcID:
+				failStage, failEpoch = 1, e.epoch
+			case e.kind == c08Commit && failStage == 1 &&
+				e.epoch == failEpoch:
+
+				failStage = 2
+			case e.kind == c08Revoke && failStage == 2 &&
+				e.epoch == failEpoch:
+
+				failStage = 3
 			}
 		}
-		if !settled {
+		outGone := true
+		for _, htlc := range other.channel.ActiveHtlcs() {
+			if !htlc.Incoming && htlc.HtlcIndex == f.out.HtlcID {
+				outGone = false
+			}
+		}
+		failed := failStage == 3 && outGone &&
+			!other.channel.OweCommitment()
+		if !settled && !failed {
 			continue
+		}
+		answer := "settled"
+		if !settled {
+			answer = "failed (removal locked in)"
 		}
 		mb, ok := link.mailBox.(*memoryMailBox)
 		if !ok {
@@ -1282,13 +1310,12 @@ func (r *c08Run) stuckResponse(minSilence time.Duration) string {
 		}
 
 		return fmt.Sprintf("incoming HTLC %v (%x) at bob is left "+
-			"dangling: the outgoing HTLC %v was settled by the "+
+			"dangling: the outgoing HTLC %v was %s by the "+
 			"downstream peer, the circuit is still open, the incoming "+
-			"HTLC is still active, but the settle is in no mailbox "+
+			"HTLC is still active, but the response is in no mailbox "+
 			"(given up before a commitment covering it was signed); "+
-			"nothing is pending and the wire has been silent for %v: "+
-			"the forwarder paid downstream and does not claim upstream",
-			f.in, f.hash[:4], f.out, since.Round(time.Second))
+			"nothing is pending and the wire has been silent for %v",
+			f.in, f.hash[:4], f.out, answer, since.Round(time.Second))
 	}
 
 	return ""
